@@ -10,7 +10,8 @@ _DER_TLV = ["ecdsa.der.encode_length", "ecdsa.der.read_length", "ecdsa.der.encod
 PROPS["C11"] = dict(
     level="other",
     functions=_DER_TLV,
-    lemmas=[],
+    lemmas=["der.roundtrip_length", "der.roundtrip_integer", "der.roundtrip_octet_string", "der.roundtrip_sequence",
+            "der.roundtrip_constructed", "der.roundtrip_bitstring"],
     bounded=[dict(function=q, role="CPython cross-check of a proved contract", bound="structured DER corpus (spec.domains.der_strings)")
              for q in _DER_TLV],
     min_obligations=30,
